@@ -1,24 +1,26 @@
 /-
-  Proofs/ResChainLemmas.lean — schedules of Model/ResChain.lean: FIFO is one of them, and
-  `explore` really covers all of them.
+  Proofs/ResChainLemmas.lean — schedules of Model/ResChain.lean: FIFO is one of them, `explore`
+  really covers all of them, and — while the pool counts at most `sizeBound` transports — every
+  pair of watermarks behaves like its clamped pair (`clampWM`), so that exploring the nine
+  clamped pairs covers every configuration.
 -/
 import ScalesModel.Adapter.ResPool
 namespace Scales.Chain
 
-theorem run_quiet (c : C) (h : c.tasks.length = 0) (ks : List Nat) : run c ks = c := by
+theorem run_quiet (w : WM) (c : C) (h : c.tasks.length = 0) (ks : List Nat) : run w c ks = c := by
   cases ks with
   | nil => rfl
   | cons k ks => simp [run, h]
 
-theorem run_append (c : C) (a b : List Nat) : run (run c a) b = run c (a ++ b) := by
+theorem run_append (w : WM) (c : C) (a b : List Nat) : run w (run w c a) b = run w c (a ++ b) := by
   induction a generalizing c with
   | nil => rfl
   | cons k ks ih =>
     by_cases h : c.tasks.length = 0
-    · simp [run, h, run_quiet c h]
+    · simp [run, h, run_quiet w c h]
     · simp [run, h, ih]
 
-theorem runFIFO_eq_run (c : C) (n : Nat) : runFIFO c n = run c (List.replicate n 0) := by
+theorem runFIFO_eq_run (w : WM) (c : C) (n : Nat) : runFIFO w c n = run w c (List.replicate n 0) := by
   induction n generalizing c with
   | zero => rfl
   | succ n ih =>
@@ -26,25 +28,64 @@ theorem runFIFO_eq_run (c : C) (n : Nat) : runFIFO c n = run c (List.replicate n
     · simp [runFIFO, List.replicate_succ, run, h]
     · simp [runFIFO, List.replicate_succ, run, h, ih]
 
+/-! ### watermarks beyond the pool's size do not matter -/
+
+theorem clamp_lo (w : WM) (n : Nat) (h : n ≤ sizeBound) : n ≤ (clampWM w).lo ↔ n ≤ w.lo := by
+  simp only [clampWM, sizeBound] at *
+  omega
+
+theorem clamp_hi (w : WM) (n : Nat) (h : n ≤ sizeBound) : n < (clampWM w).hi ↔ n < w.hi := by
+  simp only [clampWM, sizeBound] at *
+  omega
+
+theorem poolRelease_clamp (w : WM) (c : C) (h : c.pSize ≤ sizeBound) :
+    poolRelease (clampWM w) c = poolRelease w c := by
+  simp only [poolRelease, clamp_lo w _ h]
+
+@[simp] theorem trFault_pSize (c : C) : (trFault c).pSize = c.pSize := by
+  unfold trFault push; split <;> rfl
+
+theorem runTask_clamp (w : WM) (c : C) (t : Task) (h : c.pSize ≤ sizeBound) :
+    runTask (clampWM w) c t = runTask w c t := by
+  cases t <;> simp only [runTask]
+  case poolOpen =>
+    rw [poolRelease_clamp w _ (by simpa using h)]
+    simp only [clamp_hi w _ h]
+  case wakeGet =>
+    split
+    · rw [poolRelease_clamp w _ (by split <;> simpa using h)]
+    · rfl
+  case reqStart eof => simp only [clamp_hi w _ h]
+  case tx eof =>
+    rw [poolRelease_clamp w _ (by simpa using h), poolRelease_clamp w _ h]
+  case reply => rw [poolRelease_clamp w _ h]
+
+theorem fire_clamp (w : WM) (c : C) (i : Nat) (h : c.pSize ≤ sizeBound) :
+    fire (clampWM w) c i = fire w c i := by
+  unfold fire
+  split
+  · exact runTask_clamp w _ _ (by simpa using h)
+  · rfl
+
 /-- the inner fold of `explore` -/
-def exploreAll (fuel : Nat) (c : C) (l : List Nat) : Option (List C) :=
+def exploreAll (w : WM) (fuel : Nat) (c : C) (l : List Nat) : Option (List C) :=
   l.foldr (fun i acc => do
     let a ← acc
-    let b ← explore fuel (fire c i)
+    let b ← explore w fuel (fire w c i)
     pure (b ++ a)) (some [])
 
-theorem exploreAll_mem (fuel : Nat) (c : C) (l : List Nat) (fs : List C)
-    (h : exploreAll fuel c l = some fs) (i : Nat) (hi : i ∈ l) :
-    ∃ b, explore fuel (fire c i) = some b ∧ ∀ x ∈ b, x ∈ fs := by
+theorem exploreAll_mem (w : WM) (fuel : Nat) (c : C) (l : List Nat) (fs : List C)
+    (h : exploreAll w fuel c l = some fs) (i : Nat) (hi : i ∈ l) :
+    ∃ b, explore w fuel (fire w c i) = some b ∧ ∀ x ∈ b, x ∈ fs := by
   induction l generalizing fs with
   | nil => cases hi
   | cons j l ih =>
     simp only [exploreAll, List.foldr_cons] at h
-    change (do let a ← exploreAll fuel c l; let b ← explore fuel (fire c j); pure (b ++ a)) = some fs at h
-    cases ha : exploreAll fuel c l with
+    change (do let a ← exploreAll w fuel c l; let b ← explore w fuel (fire w c j); pure (b ++ a)) = some fs at h
+    cases ha : exploreAll w fuel c l with
     | none => simp [ha] at h
     | some a =>
-      cases hb : explore fuel (fire c j) with
+      cases hb : explore w fuel (fire w c j) with
       | none => simp [ha, hb] at h
       | some b =>
         simp [ha, hb] at h
@@ -55,32 +96,40 @@ theorem exploreAll_mem (fuel : Nat) (c : C) (l : List Nat) (fs : List C)
           exact ⟨b', hb', fun x hx => List.mem_append_right _ (hsub x hx)⟩
 
 /-- every schedule at least as long as the exploration depth ends, quiescent, in one of the
-    explored final states -/
-theorem explore_sound (n : Nat) (c : C) (fs : List C) (h : explore n c = some fs)
+    final states explored **for the clamped watermarks** — and runs identically under the
+    watermarks themselves -/
+theorem explore_sound (w : WM) (n : Nat) (c : C) (fs : List C) (h : explore (clampWM w) n c = some fs)
     (picks : List Nat) (hl : n ≤ picks.length) :
-    run c picks ∈ fs ∧ (run c picks).tasks.length = 0 := by
+    run w c picks ∈ fs ∧ (run w c picks).tasks.length = 0 ∧ run w c picks = run (clampWM w) c picks := by
   induction n generalizing c fs picks with
   | zero =>
     simp only [explore] at h
-    by_cases hq : c.tasks.length = 0
-    · simp [hq] at h; subst h; simp [run_quiet c hq, hq]
-    · simp [hq] at h
+    by_cases hq : c.tasks.length = 0 ∧ c.pSize ≤ sizeBound
+    · rw [if_pos hq] at h
+      simp only [Option.some.injEq] at h
+      subst h; simp [run_quiet _ c hq.1, hq.1]
+    · rw [if_neg hq] at h; cases h
   | succ n ih =>
     simp only [explore] at h
-    by_cases hq : c.tasks.length = 0
-    · simp [hq] at h; subst h; simp [run_quiet c hq, hq]
-    · simp only [hq, if_false] at h
-      cases picks with
-      | nil => simp at hl
-      | cons k ks =>
-        have hpos : 0 < c.tasks.length := Nat.pos_of_ne_zero hq
-        have hi : k % c.tasks.length ∈ List.range c.tasks.length :=
-          List.mem_range.mpr (Nat.mod_lt _ hpos)
-        obtain ⟨b, hb, hsub⟩ := exploreAll_mem n c _ fs h _ hi
-        have hl' : n ≤ ks.length := by simpa using hl
-        obtain ⟨hm, hquiet⟩ := ih (fire c (k % c.tasks.length)) b hb ks hl'
-        simp only [run, hq, if_false]
-        exact ⟨hsub _ hm, hquiet⟩
+    by_cases hb : sizeBound < c.pSize
+    · simp [hb] at h
+    · simp only [hb, if_false] at h
+      by_cases hq : c.tasks.length = 0
+      · simp [hq] at h; subst h; simp [run_quiet _ c hq, hq]
+      · simp only [hq, if_false] at h
+        cases picks with
+        | nil => simp at hl
+        | cons k ks =>
+          have hpos : 0 < c.tasks.length := Nat.pos_of_ne_zero hq
+          have hi : k % c.tasks.length ∈ List.range c.tasks.length :=
+            List.mem_range.mpr (Nat.mod_lt _ hpos)
+          obtain ⟨b, hb', hsub⟩ := exploreAll_mem (clampWM w) n c _ fs h _ hi
+          have hl' : n ≤ ks.length := by simpa using hl
+          have hf := fire_clamp w c (k % c.tasks.length) (by omega)
+          rw [hf] at hb'
+          obtain ⟨hm, hquiet, heq⟩ := ih (fire w c (k % c.tasks.length)) b hb' ks hl'
+          simp only [run, hq, if_false, hf]
+          exact ⟨hsub _ hm, hquiet, heq⟩
 
 end Scales.Chain
 
@@ -88,13 +137,13 @@ namespace Scales.Pool
 open Scales.Chain
 
 /-- `drain` is a schedule of length ≥ `fuel` -/
-theorem drain_eq_run (c : C) (sched : List Nat) :
-    drain c sched = run c (sched ++ List.replicate fuel 0) := by
+theorem drain_eq_run (w : WM) (c : C) (sched : List Nat) :
+    drain w c sched = run w c (sched ++ List.replicate fuel 0) := by
   unfold drain; rw [runFIFO_eq_run, run_append]
 
-theorem drain_mem (c : C) (fs : List C) (h : explore fuel c = some fs) (sched : List Nat) :
-    drain c sched ∈ fs := by
+theorem drain_mem (w : WM) (c : C) (fs : List C) (h : explore (clampWM w) fuel c = some fs) (sched : List Nat) :
+    drain w c sched ∈ fs := by
   rw [drain_eq_run]
-  exact (explore_sound fuel c fs h _ (by simp)).1
+  exact (explore_sound w fuel c fs h _ (by simp)).1
 
 end Scales.Pool
